@@ -487,12 +487,24 @@ fn main() {
     let cases = AtomicU64::new(0);
     let compacted = AtomicU64::new(0);
     let layouts_n = AtomicU64::new(0);
+    let two_pass_skipped = AtomicU64::new(0);
     par::par_map(&usable, |_, set| {
+        // Two passes merge SUBSETS of the updates first (the first pass sees a prefix of the layout, the second merges
+        // its output with others): the ground truth is only usable if every subset of the key's updates has an
+        // order-independent merge too - otherwise the case belongs to C07 (type-changing histories), not to compaction.
+        let hereditary = (1u32..(1 << set.len())).filter(|m| m.count_ones() >= 2).all(|m| {
+            let sub: Vec<Upd> = set.iter().enumerate().filter(|(i, _)| m & (1 << i) != 0).map(|(_, u)| *u).collect();
+            order_independent_fold(&sub).is_some()
+        });
         for layout in layouts_of(set) {
             layouts_n.fetch_add(1, Ordering::Relaxed);
             for cfg in &cfgs {
                 if cfg.split > 0 && layout.segments.len() <= cfg.split {
                     continue; // nothing left to flush between the passes
+                }
+                if cfg.passes > 1 && !hereditary {
+                    two_pass_skipped.fetch_add(1, Ordering::Relaxed);
+                    continue;
                 }
                 cases.fetch_add(1, Ordering::Relaxed);
                 match check_case(&layout, cfg) {
@@ -574,6 +586,7 @@ fn main() {
         "update_sets_considered": sets.len(),
         "update_sets_with_order_dependent_merge_excluded": order_dependent,
         "layouts": layouts_n.load(Ordering::Relaxed),
+        "two_pass_cases_skipped_because_a_subset_of_the_updates_merges_order_dependently": two_pass_skipped.load(Ordering::Relaxed),
         "layout_config_cases": cases.load(Ordering::Relaxed),
         "cases_where_compaction_rewrote_segments": compacted.load(Ordering::Relaxed),
         "race_layouts": race_layouts.len(),
